@@ -5,10 +5,12 @@ Each model area contributes a handler `List String → Option String` (none = no
 -/
 import PrqlModel.Drv.Util
 import PrqlModel.Drv.Target
+import PrqlModel.Drv.Json
 namespace Drv
 
 def handlers : List (List String → Option String) := [
-  Drv.Target.handle
+  Drv.Target.handle,
+  Drv.Json.handle
 ]
 
 def handle (fields : List String) : String :=
